@@ -3,12 +3,13 @@
 # THAT tree (J2M_REPO); /repo itself is not touched, so this is safe while other runs use /repo.
 D="$1"; shift
 N=$(basename "$D" .diff)
-WT=/tmp/mwt/$N
+WT=/tmp/mwt/$N.$$
+L=/tmp/mwt.$N.$$
 rm -rf "$WT"; git -C /repo worktree prune
 git -C /repo worktree add -q "$WT" HEAD || exit 2
 git -C "$WT" apply "$D" || { git -C /repo worktree remove --force "$WT"; echo "mutant=$N does not apply"; exit 2; }
 for id in "$@"; do
-  J2M_REPO="$WT" /verif/check $id --tier quick > /tmp/mwt.$N.$id.log 2>&1; rc=$?
-  echo "mutant=$N check=$id exit=$rc $(grep -c '^VIOLATION' /tmp/mwt.$N.$id.log) violation lines; $(grep '^VIOLATION' /tmp/mwt.$N.$id.log | head -1)"
+  J2M_REPO="$WT" /verif/check $id --tier quick > $L.$id.log 2>&1; rc=$?
+  echo "mutant=$N check=$id exit=$rc $(grep -c '^VIOLATION' $L.$id.log) violation lines; $(grep '^VIOLATION' $L.$id.log | head -1)"
 done
 git -C /repo worktree remove --force "$WT"
